@@ -94,51 +94,22 @@ def item(args):
     return out
 
 
-WRITINGS = {"ints (unifying)": [[0, 1, 1, 0, 1, 1], [1, 1, 0, 1, 1, 0]], "ints (2 x unifying)": [[0, 2, 2, 0, 2, 2], [2, 2, 0, 2, 2, 0]],
-            "ints (induced measure)": [[0, 1, 1, 0, 0, 0], [1, 1, 0, 0, 0, 0]], "ints and floats mixed": [[0, 1.0, 1, 0, 1, 1], [1, 1, 0, 1.0, 1, 0]],
-            "floats (pseudo-distance)": [[0., 1., 1., 0., 1., 0.], [1., 1., 0., 1., 1., 1.]], "ints (custom)": [[0, 2, 1, 0, 2, 1], [1, 1, 0, 1, 1, 3]]}
-
-
 def jit_conformance(run):
-    """[trace validation, not the deciding step] the engines execute the kernels' Python source with numba's JIT off; the
-    compiled kernels additionally dispatch on argument dtypes.  Every configuration is therefore run once per scheme
-    *writing* (valid schemes written with Python ints, floats, or both) in a fresh process with the JIT ON, and the outcome
-    must be the one the property states (no failure, complete data accepted, declared-relevant data accepted)."""
-    import json, os, subprocess, sys
-    shp = [((0, 1, 1), (2, 0, 1)), ((0, 1, -1), (1, -1, 0)), ((0, 0, 1), (-1, -1, -1), (1, 0, 2))]
-    jobs = []
-    for cfg in CFGS:
-        for wname, w in WRITINGS.items():
-            for i, lvs in enumerate(shp):
-                names = [[1, 2, 3], ["b", "a", "c"]][(i + len(jobs)) % 2]
-                jobs.append({"config": cfg, "rankings": shapes.raw_json(lvs, names), "scheme_written": w, "scheme": w, "flag": True, "writing": wname,
-                             "choices": []})
-    env = dict(os.environ)
-    env.pop("NUMBA_DISABLE_JIT", None)
-    env["VF_REPLAY"] = "1"
-    r = subprocess.run([sys.executable, "-m", "vf.jitprobe"], input=json.dumps(jobs), capture_output=True, text=True, env=env, cwd=harness.VERIF, timeout=1500)
-    if r.returncode != 0:
-        raise harness.HarnessError("JIT conformance probe failed: " + (r.stderr or "")[-600:])
-    res = json.loads(r.stdout)
-    for job, o in zip(jobs, res):
-        STATS.validated += 1
-        base = dict(job, signature={"site": job["config"], "class": "jit:" + job["writing"]})
+    """[trace validation, not the deciding step] see sweep.jit_conformance; C14's verdict on each outcome"""
+    def judge(job, o, base):
         refusal = o["exc"] is not None and o["exc"][0] in sweep.REFUSALS[:2]
         if not isinstance(o["rel"], bool):
-            run.candidate(dict(base, what=f"{job['config']}: predicate on a scheme written as {job['writing']}: {o['rel']}", check="predicate-raises"))
-        elif o["exc"] is not None and not refusal:
-            run.candidate(dict(base, what=f"{job['config']}: valid scheme written as {job['writing']}: raised {o['exc'][0]}: {o['exc'][1]} (compiled kernels)", check="raises"))
-        elif refusal and o["complete"]:
-            run.candidate(dict(base, what=f"{job['config']}: complete dataset refused for a scheme written as {job['writing']}", check="complete-refused"))
-        elif refusal and o["rel"]:
-            run.candidate(dict(base, what=f"{job['config']}: declared relevant but refused, scheme written as {job['writing']}", check="declared-true-refused"))
-        elif not refusal:
-            names = {(type(x).__name__, x) for rk in job["rankings"] for b in rk for x in b}
-            for rk in o["consensus"]:
-                seen = [tuple(e) for b in rk for e in b]
-                if any(len(b) == 0 for b in rk) or len(seen) != len(set(seen)) or set(seen) != names:
-                    run.candidate(dict(base, what=f"{job['config']}: ill-formed consensus {rk} for a scheme written as {job['writing']}", check="wf"))
-    run.extra["jit_conformance_runs"] = len(jobs)
+            return dict(base, what=f"{job['config']}: predicate on a scheme written as {job['writing']}: {o['rel']}", check="predicate-raises")
+        if o["exc"] is not None and not refusal:
+            return dict(base, what=f"{job['config']}: valid scheme written as {job['writing']}: raised {o['exc'][0]}: {o['exc'][1]} (compiled kernels)", check="raises")
+        if refusal and o["complete"]:
+            return dict(base, what=f"{job['config']}: complete dataset refused for a scheme written as {job['writing']}", check="complete-refused")
+        if refusal and o["rel"]:
+            return dict(base, what=f"{job['config']}: declared relevant but refused, scheme written as {job['writing']}", check="declared-true-refused")
+        if not refusal and sweep.jit_illformed(job, o):
+            return dict(base, what=f"{job['config']}: ill-formed consensus {o['consensus']} for a scheme written as {job['writing']}", check="wf")
+        return None
+    sweep.jit_conformance(run, CFGS, judge)
 
 
 def run(run):
